@@ -4,8 +4,9 @@ set -u
 WS=$1; BR=${2:-ag}-$WS
 cd /verif
 echo "== repo commits on $BR:"; git -C /repo log --oneline main..$BR
-for c in $(git -C /repo rev-list --reverse main..$BR); do
-  git -C /repo cherry-pick -x $c >/dev/null 2>&1 || { echo "CHERRY-PICK CONFLICT $c"; git -C /repo cherry-pick --abort; }
+# `git cherry` marks with "-" the commits whose patch is already on main (another builder made the same repair)
+for c in $(git -C /repo cherry main $BR | awk '$1=="+"{print $2}'); do
+  git -C /repo cherry-pick -x $c >/dev/null 2>&1 || { echo "CHERRY-PICK CONFLICT $c $(git -C /repo show -s --format=%s $c | cut -c1-70)"; git -C /repo cherry-pick --abort; }
 done
 git merge -q --no-edit $BR >/dev/null 2>&1
 # generated / integrator-owned files: keep ours, regenerate below
